@@ -105,7 +105,10 @@ Record TcbInfo := mkTI {
   ti_fmspc : bytes;           (* the JSON string, not decoded *)
   ti_eval : N;
   ti_modids : list TdxModuleId;
-  ti_levels : list TcbLevel }.
+  ti_levels : list TcbLevel;
+  (* tdxModule.mrsigner / attributes / attributesMask (hex strings): decoded by encoding/json into
+     TCBInfo.TDXModule but never read by the verification code; carried so that this can be stated *)
+  ti_seam_mrsigner : bytes; ti_seam_attrs : bytes; ti_seam_mask : bytes }.
 Record QeId := mkQI {
   qi_id : bytes; qi_version : Z; qi_issue : option Z; qi_next : option Z; qi_eval : N;
   qi_miscselect : bytes; qi_miscmask : bytes; qi_attrs : bytes; qi_attrmask : bytes;
@@ -199,6 +202,7 @@ Definition sgx_debug (r : bytes) : bool := N.testbit (sgx_flags r) 1.
 Definition td_teetcbsvn (r : bytes) : bytes := slice 0 16 r.
 Definition td_mrseam (r : bytes) : bytes := slice 16 48 r.
 Definition td_mrsignerseam (r : bytes) : bytes := slice 64 48 r.
+Definition td_seamattributes (r : bytes) : bytes := slice 112 8 r.
 Definition td_attributes (r : bytes) : N := le 120 8 r.
 Definition td_measurements (r : bytes) : bytes := slice 136 48 r ++ slice 328 192 r. (* MRTD, RTMR0..3 *)
 Definition td_report_data (r : bytes) : bytes := slice 520 64 r.
